@@ -68,9 +68,9 @@ type Workload struct {
 	// "before-omitted", "after-omitted", "both-false" (controller: false spelled out, or the field left out)
 	ExtraOwners string `json:"extraOwners,omitempty"`
 	// Pending (Pod manifests only): the pod has no status yet (no host address, no pod addresses) - as a just re-created pod looks
-	Pending     bool   `json:"pending,omitempty"`
+	Pending       bool   `json:"pending,omitempty"`
 	MixedOwnerAPI bool   // KOwnedPods: every other pod records its controller under the older apiVersion of the same kind (as a cluster upgrade leaves behind)
-	PerPodLabel string // KOwnedPods: a label key that carries the pod's own name as its value, as controllers set on the pods of a StatefulSet
+	PerPodLabel   string // KOwnedPods: a label key that carries the pod's own name as its value, as controllers set on the pods of a StatefulSet
 	// ObjLabels: labels of the controller object itself (metadata.labels of the Deployment ..., and of a CronJob's jobTemplate): they are
 	// labels of the object, not of its pods, and must not matter
 	ObjLabels map[string]string `json:"objLabels,omitempty"`
